@@ -377,7 +377,18 @@ func DeserializeData(s []byte, uncompress bool) ([]byte, CompressionFormat, erro
 		if !ok {
 			return nil, 0, fmt.Errorf("expected grayscale JPEG in deserialization, got %T", imgdata)
 		}
-		return data2.Pix, compression, nil
+		// The decoder pads its pixel buffer to whole 8x8 units, so when the image dimensions
+		// aren't multiples of 8, Pix has a larger stride and extra rows.  Return exactly the
+		// width x height bytes that were serialized.
+		nx, ny := data2.Rect.Dx(), data2.Rect.Dy()
+		if data2.Stride == nx && len(data2.Pix) == nx*ny {
+			return data2.Pix, compression, nil
+		}
+		pix := make([]byte, nx*ny)
+		for y := 0; y < ny; y++ {
+			copy(pix[y*nx:(y+1)*nx], data2.Pix[y*data2.Stride:y*data2.Stride+nx])
+		}
+		return pix, compression, nil
 	case Gzip:
 		b := bytes.NewBuffer(cdata)
 		var err error
